@@ -1,7 +1,9 @@
 /-
 C05 — "the scheduler never ends up waiting on an idle timer while a due task exists" (repaired code,
 all `Fix` switches on, `Hook.fixed = true`), the witness of the defect of the pinned source (D12), and
-the witness that the driver's part of the contract (`Retry` of a retryable `DispatchErr`) is needed.
+what a `Step` over an un-retried `DispatchErr` does now that `dispatchTask` sets the restart request
+when it gives up (D21 repaired): the former witness `C05_step_over_dispatchErr_witness` ("the task is
+stranded") is no longer true and is replaced by `C05_step_over_dispatchErr_now`.
 
 Setting, helper lemmas and the invariant `Live.LiveInv` are in `Gk/Proofs/WorldLive.lean`.
 
@@ -14,8 +16,8 @@ where `Inv` is the hook-timer invariant of C07 and `Owes w` is a predicate on
 `(pc, lastTask, getNextErr, ret)`: the scheduler has consumed the fire and is at `s_getNext`, or holds
 a task `t` (`s_nextSched t`, `d_wait t false`, `d_mark t _`, `r_getById t`, `lastTask = some t`,
 `ret = DispatchErr t e` with `e` not a repository verdict) that is still scheduled and is the cached
-head whenever the cache is trusted (so marking it re-arms), or `getNextErr` is set, or the timer is
-being restarted.
+head whenever the cache is trusted (so marking it re-arms), or `getNextErr` is set (with a state that
+`Retry` does not hand back to `dispatchTask`), or the timer is being restarted.
 -/
 import Gk.World
 import Gk.Proofs.WorldLive
@@ -32,7 +34,9 @@ the step needs `DriverOk`: the driver does not call `Step` while the previous ca
 Everything else is arbitrary: user mutations at every call boundary, advances, completions, faults
 before/after effect on every scheduler call, hook `GetNext` faults, context cancellation, busy
 workers, `Step`/`Retry` in any order, calls that are not enabled (`stuck`).
-`C05_step_over_dispatchErr_witness` shows that `DriverOk` cannot be dropped. -/
+WORLDFIX (D21): on the code where `dispatchTask` sets `getNextErr` when it gives up, `DriverOk` is no longer
+needed (`C05_liveInv_step` below); the statement is kept as it was. The witness that used to show that
+`DriverOk` cannot be dropped (`C05_step_over_dispatchErr_witness`) is false now, see §4. -/
 theorem C05_liveInv_step_partial (w : World) (a : Act) :
     LiveInv w → World.UserOk w a → World.DriverOk w a → LiveInv (w.step a) :=
   fun h hu hd => h.step a hu hd
@@ -40,6 +44,21 @@ theorem C05_liveInv_step_partial (w : World) (a : Act) :
 theorem C05_liveInv_run_partial (t0 : Time) (acts : List Act) :
     World.Script (World.init' t0) acts → LiveInv ((World.init' t0).run acts) :=
   fun hs => (LiveInv.init t0).run acts hs
+
+/-- NEW with D21 repaired — FULL: the invariant is preserved by every action of every driver (no `DriverOk`):
+a `Step` issued over an un-retried `DispatchErr` finds the restart request set and restarts the timer. -/
+theorem C05_liveInv_step (w : World) (a : Act) :
+    LiveInv w → World.UserOk w a → LiveInv (w.step a) :=
+  fun h hu => h.step_free a hu
+
+theorem C05_liveInv_run (t0 : Time) (acts : List Act) :
+    World.UserScript (World.init' t0) acts → LiveInv ((World.init' t0).run acts) :=
+  fun hs => (LiveInv.init t0).run_free acts hs
+
+/-- between two calls a `DispatchErr` state always comes with the restart request -/
+theorem C05_dispatchErr_sets_restart (w : World) (t : Task) (e : Err) :
+    LiveInv w → w.pc = .idle → w.ret = .dispatchErr t e → w.getNextErr = true :=
+  fun h hpc hr => h.dispatchErr_restart hpc hr
 
 /-! ### 2. no idle timer -/
 
@@ -121,7 +140,7 @@ theorem C05_armed_not_late (w : World) (hd : Task) (d : Time) :
 
 /-- What `Owes` means between two calls. -/
 theorem C05_owes_idle (w : World) (hpc : w.pc = .idle) :
-    Owes w ↔ ((∃ t, w.lastTask = some t ∧ w.obs.Held t) ∨ w.getNextErr = true) ∨
+    Owes w ↔ ((∃ t, w.lastTask = some t ∧ w.obs.Held t) ∨ (w.getNextErr = true ∧ quietRet w.ret = true)) ∨
       (∃ t e, w.ret = .dispatchErr t e ∧ World.isDefError e = false ∧ w.obs.Held t) := by
   simp [Owes, hpc, Sticky, LastDebt, DErr]
 
@@ -165,38 +184,69 @@ example :
     ((World.init' C05.t0).run (C05.announce.take 1)).obs.repo.getNext.map (·.id) = some "t1" := by
   decide
 
-/-! ### 4. the driver's part of the contract cannot be dropped -/
+/-! ### 4. a `Step` over an un-retried `DispatchErr` (D21)
+
+Before the repair of D21 this section held the witness `C05_step_over_dispatchErr_witness`: "a `Step` issued
+after an un-retried `DispatchErr(ctx)` strands the due task (no wake-up)". With `dispatchTask` setting
+`getNextErr` when it gives up this is FALSE: the next `Step` restarts the timer in its prologue, the restarted
+timer fires at once (t1 is due) and the task is announced again. The witness is replaced by the true statement
+about the same situation. -/
 
 /-- announce t1; Step: no worker is acquired before the context is cancelled → `DispatchErr t1 ctx`;
-then the driver calls `Step` again (instead of `Retry`) and the context ends the wait. -/
+then the driver calls `Step` again (instead of `Retry`) — the call sequence of the code BEFORE the repair of D21
+(`LastTimerUpdateError`, then `select`, where the context ends the wait). -/
 def C05.dropDispatchErr : List Act :=
   C05.announce ++
   [.sched .beginStep, .sched .lastTimerErr, .sched (.waitWorker false),
    .sched .beginStep, .sched .lastTimerErr, .sched .selCtx]
 
-/-- REAL FINDING (driver contract): a `Step` issued after an un-retried `DispatchErr(ctx / other)`
-strands the due task: the timer fire was consumed by the announcing `Step`, `lastTask` was cleared
-by the failed dispatch, nothing is armed, nothing pending, no restart flag — every further `Step`
-blocks in `select` until some user mutation happens to re-arm the timer. All user actions of the
-script are `UserOk` (`UserScript`); only `DriverOk` is violated (at the third `beginStep`). -/
-theorem C05_step_over_dispatchErr_witness :
-    let w := (World.init' C05.t0).run C05.dropDispatchErr
-    World.UserScript (World.init' C05.t0) C05.dropDispatchErr ∧
-    ¬ World.Script (World.init' C05.t0) C05.dropDispatchErr ∧
+/-- the same situation, the call sequence of the repaired code: the second `Step` finds `getNextErr` set,
+stops and starts the timer, finds no timer error, and in `select` the timer branch is ready (t1 is due) -/
+def C05.dropDispatchErrNow : List Act :=
+  C05.announce ++
+  [.sched .beginStep, .sched .lastTimerErr, .sched (.waitWorker false),
+   .sched .beginStep, .sched .stopTimer, .sched (.startTimer none), .sched .lastTimerErr,
+   .sched .selTimer, .sched (.getNext .none), .sched .nextScheduled]
+
+-- WORLDFIX: `C05_step_over_dispatchErr_witness` is no longer true (D21 repaired) — its script is not even a run
+-- of the code any more (first conjunct of `C05_step_over_dispatchErr_now`); kept for the record:
+-- theorem C05_step_over_dispatchErr_witness :
+--     let w := (World.init' C05.t0).run C05.dropDispatchErr
+--     World.UserScript (World.init' C05.t0) C05.dropDispatchErr ∧
+--     ¬ World.Script (World.init' C05.t0) C05.dropDispatchErr ∧
+--     w.pc = .idle ∧ w.stuck = false ∧
+--     (w.obs.repo.tasks.map (fun t => (t.id, t.state, decide (t.scheduledAt ≤ w.obs.clock.now))))
+--       = [("t1", .scheduled, true)] ∧
+--     ¬ World.WakeUp w
+
+/-- What happens NOW when the driver calls `Step` (instead of `Retry`) after `DispatchErr(t1, ctx)`:
+* the old call sequence is not a run of the code: after `beginStep` the automaton is at `s_stop` (restart
+  prologue) with `getNextErr` set, the old next call (`LastTimerUpdateError`) is not enabled (`stuck`);
+* the actual run (`C05.dropDispatchErrNow`; all user actions `UserOk`, `DriverOk` still violated at the third
+  `beginStep`, never stuck) restarts the timer and ends between two calls with t1 ANNOUNCED AGAIN
+  (`NextTask t1`, `lastTask = t1`, restart request cleared): `WakeUp` holds, nothing is stranded;
+* one more `Step` starts the work function of t1. -/
+theorem C05_step_over_dispatchErr_now :
+    let w := (World.init' C05.t0).run C05.dropDispatchErrNow
+    ((World.init' C05.t0).run (C05.dropDispatchErr.take 11)).pc = .s_stop ∧
+    ((World.init' C05.t0).run (C05.dropDispatchErr.take 11)).getNextErr = true ∧
+    ((World.init' C05.t0).run (C05.dropDispatchErr.take 11)).stuck = false ∧
+    ((World.init' C05.t0).run C05.dropDispatchErr).stuck = true ∧
+    World.UserScript (World.init' C05.t0) C05.dropDispatchErrNow ∧
+    ¬ World.Script (World.init' C05.t0) C05.dropDispatchErrNow ∧
     w.pc = .idle ∧ w.stuck = false ∧
     (w.obs.repo.tasks.map (fun t => (t.id, t.state, decide (t.scheduledAt ≤ w.obs.clock.now))))
       = [("t1", .scheduled, true)] ∧
-    ¬ World.WakeUp w := by
-  have hw : let w := (World.init' C05.t0).run C05.dropDispatchErr
-      w.pc = .idle ∧ w.stuck = false ∧
-      (w.obs.repo.tasks.map (fun t => (t.id, t.state, decide (t.scheduledAt ≤ w.obs.clock.now))))
-        = [("t1", .scheduled, true)] ∧
-      w.obs.clock.pending = false ∧ w.obs.clock.armed = none ∧ w.lastTask = none ∧
-      w.getNextErr = false ∧ w.obs.hook.lastErr = none ∧ w.obs.hook.started = true ∧
-      w.ret = .awaitingNext := by decide
-  obtain ⟨h1, h2, h3, h4, h5, h6, h7, h8, h9, h10⟩ := hw
-  refine ⟨by decide, by decide, h1, h2, h3, ?_⟩
-  simp [World.WakeUp, h4, h5, h6, h7, h8, h9, h10]
+    (match w.ret with | .nextTask (some t) none => t.id == "t1" | _ => false) = true ∧
+    w.lastTask.map (·.id) = some "t1" ∧ w.getNextErr = false ∧
+    World.WakeUp w ∧
+    (let w' := w.run [.sched .beginStep, .sched .lastTimerErr, .sched (.waitWorker true),
+        .sched (.markDispatched .none none), .sched (.getById .none)]
+     w'.pc = .idle ∧ w'.stuck = false ∧ w'.ret = .dispatched "t1" ∧ w'.log.map (·.id) = ["t1"]) := by
+  refine ⟨by decide, by decide, by decide, by decide, by decide, by decide, by decide, by decide, by decide,
+    by decide, by decide, by decide, ?_, by decide⟩
+  right; right; left
+  decide
 
 /-- The same situation with the driver keeping its part (`Retry`): the task is run. -/
 example :
